@@ -3,12 +3,10 @@ Proofs/MinifyExpand.lean — the DFA built by `_expand_dfa` is a valid, Python-s
 of whose states are reachable, hence a source for `_minify` with `kept = states`
 (`expand_minSource`): the `minify=True` path of `union`, `intersection`, `difference`,
 `symmetric_difference` and `from_nfa` (core only).  The lazy product satisfies the hypotheses
-(`binopPlain_minSource`), and so does the subset construction (`subset_expandHyp`,
-`toDFA_minSource`).
+(`binopPlain_minSource`).
 -/
 import AutomataVerif.Proofs.Product
 import AutomataVerif.Proofs.MinifyCorrect
-import AutomataVerif.Model.Convert
 
 namespace AV
 namespace DFA
@@ -137,77 +135,4 @@ theorem binopPlain_minSource (op : BinOp) (A B : DFA σ α) (wfA : A.WF) (wfB : 
 end product
 
 end DFA
-
-/-! ### the subset construction -/
-
-/-- All sublists of a list (as filters): the universe of canonical state sets. -/
-def subLists {β : Type} : List β → List (List β)
-  | [] => [[]]
-  | x :: l => subLists l ++ (subLists l).map (x :: ·)
-
-theorem length_subLists {β : Type} (l : List β) : (subLists l).length = 2 ^ l.length := by
-  induction l with
-  | nil => rfl
-  | cons x l ih => simp only [subLists, List.length_append, List.length_map, ih, List.length_cons]; omega
-
-theorem filter_mem_subLists {β : Type} (p : β → Bool) (l : List β) : l.filter p ∈ subLists l := by
-  induction l with
-  | nil => simp [subLists]
-  | cons x l ih =>
-    simp only [subLists, List.mem_append, List.mem_map]
-    cases hp : p x with
-    | false => left; simpa [List.filter_cons, hp] using ih
-    | true => right; exact ⟨l.filter p, ih, by simp [hp]⟩
-
-namespace NFA
-variable {σ α : Type} [DecidableEq σ] [DecidableEq α]
-
-open DFA in
-/-- The BFS of `_expand_dfa` over the subset construction is exhaustive: canonical state sets
-are filters of `n.states`, of which there are `2 ^ |states|`. -/
-theorem subset_expandHyp (n : NFA σ α) :
-    ExpandHyp n.subsetSucc (subLists n.states) (2 ^ n.states.length + 1)
-      (n.canon (n.closure n.init)) := by
-  refine ⟨filter_mem_subLists _ _, ?_, ?_, ?_⟩
-  · intro u _ e he
-    unfold subsetSucc at he
-    simp only at he
-    obtain ⟨a, _, rfl⟩ := List.mem_map.mp he
-    exact filter_mem_subLists _ _
-  · intro u _
-    unfold subsetSucc
-    simp only [akeys, List.map_map, Function.comp_def, List.map_id']
-    exact nodup_dedup _
-  · rw [length_subLists]; omega
-
-/-- The subset construction only uses alphabet symbols (for a valid NFA). -/
-theorem subsetSucc_keys {n : NFA σ α} (wf : n.WF) (u : List σ) {a : α}
-    (ha : a ∈ akeys (n.subsetSucc u)) : a ∈ n.syms := by
-  unfold subsetSucc at ha
-  simp only [akeys, List.map_map, Function.comp_def, List.map_id', mem_dedup, List.mem_map,
-    List.mem_flatMap, List.mem_filterMap] at ha
-  obtain ⟨e, ⟨q, _, e', he', hee⟩, rfl⟩ := ha
-  obtain ⟨k, ts⟩ := e'
-  cases k with
-  | none => simp at hee
-  | some b =>
-    simp only at hee
-    split at hee
-    · cases hee
-    · cases hee
-      simp only [row, row?] at he'
-      cases hr : alookup q n.trans with
-      | none => simp [hr] at he'
-      | some r =>
-        rw [hr] at he'
-        exact wf.symsOk (q, r) (alookup_some_mem hr) b
-          (List.mem_map.mpr ⟨(some b, ts), he', rfl⟩)
-
-/-- `DFA.from_nfa(n, minify=False)` with all its states is a source for `_minify`. -/
-theorem toDFA_minSource {n : NFA σ α} (wf : n.WF) (hsyms : n.syms.Nodup) :
-    DFA.MinSource n.toDFA n.toDFA.states n.toDFA.finals :=
-  DFA.expand_minSource n.subsetFinal n.syms (subset_expandHyp n) hsyms
-    fun u _ _ ha => subsetSucc_keys wf u ha
-
-end NFA
 end AV
